@@ -101,6 +101,20 @@ func H_c03_proposal_message() {
 	n := symInt(0, L)
 	data := symBytes(n)
 	p := &Proposal{code: Wl2kProposal, mid: "MID", compressedData: data, compressedSize: n}
+	switch symParam("GZ", 0) {
+	case 1: // gzip proposal (GZIP_EXPERIMENT), arbitrary bytes
+		p.code = GzipProposal
+		for i := 4; i < 8 && i < n; i++ {
+			symAssume(data[i] == 0) // MTIME only feeds time.Unix: pinned
+		}
+		for i := 10; i < 12 && i < n; i++ {
+			symAssume(data[i] == 0 || data[i] == 1 || data[i] == 0xff) // XLEN (a make size when FEXTRA is set): boundary values
+		}
+	case 2: // gzip proposal: a well-formed gzip member header, then arbitrary deflate bytes
+		p.code = GzipProposal
+		p.compressedData = append([]byte{0x1f, 0x8b, 8, 0, 0, 0, 0, 0, 0, 0xff}, data...)
+		p.compressedSize = len(p.compressedData)
+	}
 	symLimitAlloc(1 << 20)
 	m, err := p.Message()
 	_, _ = m, err
